@@ -320,3 +320,24 @@ Qed.
 Lemma view_select_In sset by_uid v n u :
   In (n, u) (view_select sset by_uid v) -> In u (v_sorted v).
 Proof. intros H. apply view_select_spec in H as [_ H]. eapply nth_error_In, H. Qed.
+
+(* ---------------------------------------- _flags_key_map has one entry per uid *)
+Lemma fold_update1_knd msgs : forall st,
+  NoDup (akeys (v_fkeys (fst st))) ->
+  NoDup (akeys (v_fkeys (fst (fold_left view_update1 msgs st)))).
+Proof.
+  induction msgs as [|[w f] r IH]; intros [v low] H; cbn [fold_left]; auto.
+  apply IH. cbn [view_update1]. destruct (nmem w (v_sorted v)); cbn [fst v_fkeys];
+    apply akeys_aset_NoDup, H.
+Qed.
+Lemma vu_knd msgs v : NoDup (akeys (v_fkeys v)) -> NoDup (akeys (v_fkeys (view_update msgs v))).
+Proof.
+  intros H. pose proof (fold_update1_knd msgs (v, None) H) as K. unfold view_update.
+  destruct (fold_left view_update1 msgs (v, None)) as [v' [i|]]; exact K.
+Qed.
+Lemma vr_knd uids p v : NoDup (akeys (v_fkeys v)) -> NoDup (akeys (v_fkeys (view_remove uids p v))).
+Proof.
+  intros H. unfold view_remove. destruct p; [exact H|].
+  destruct (existsb _ _); cbn [v_fkeys]; [|exact H].
+  unfold akeys. apply NoDup_map_filter. exact H.
+Qed.
